@@ -16,6 +16,64 @@ import (
 type CaseRT struct {
 	Zone string
 	Msg  *rgen.Msg
+	// Primers are parsed (each with its own fresh options) before every parse of Msg; their results are discarded. The
+	// parse of Msg must not depend on them: whatever the library keeps between calls (pools, caches, package-level
+	// variables) must not show in a result.
+	Primers []Primer `json:",omitempty"`
+}
+
+// Primer is an earlier, unrelated ParseRealtime call.
+type Primer struct {
+	Ext ExtSpec
+	Msg *rgen.Msg
+}
+
+// crossLinked returns a variant of m in which trips and vehicles that m leaves unlinked are linked to each other (and every
+// vehicle position without a trip gets one): an earlier feed about the same trips and vehicles in another state.
+func crossLinked(m *rgen.Msg) *rgen.Msg {
+	v := cloneVia(m)
+	var tus []*rgen.TripUpdate
+	var vps []*rgen.VehiclePos
+	for i := range v.Entities {
+		if tu := v.Entities[i].TU; tu != nil && tu.Vehicle == nil {
+			tus = append(tus, tu)
+		}
+		if vp := v.Entities[i].VP; vp != nil && vp.Trip == nil && vp.Vehicle != nil {
+			vps = append(vps, vp)
+		}
+	}
+	for i := 0; i < len(tus) && i < len(vps); i++ {
+		d := *vps[i].Vehicle
+		tus[i].Vehicle = &d
+		td := tus[i].Trip
+		vps[i].Trip = &td
+	}
+	return v
+}
+
+// genPrimers draws (one time in five) 1-3 earlier calls: a cross-linked variant of the target, NYCT trips feeds parsed with
+// stale filtering (entities are skipped), elevator alert feeds parsed with deduplication (entities are skipped and merged).
+func genPrimers(t *rapid.T, zone string, target *rgen.Msg) []Primer {
+	if rapid.IntRange(0, 4).Draw(t, "primers?") != 0 {
+		return nil
+	}
+	var ps []Primer
+	for i := rapid.IntRange(1, 3).Draw(t, "nPrimers"); i > 0; i-- {
+		switch rapid.IntRange(0, 3).Draw(t, "primerKind") {
+		case 0:
+			ps = append(ps, Primer{Ext: ExtSpec{Kind: "nil"}, Msg: crossLinked(target)})
+		case 1:
+			m, _, _, _ := genNyctMsg(t, zone)
+			ps = append(ps, Primer{Ext: ExtSpec{Kind: "nycttrips", Trips: rgen.NyctTripsOpts{FilterStale: true, PreserveM: rapid.Bool().Draw(t, "primerPreserveM")}}, Msg: m})
+		case 2:
+			c, _ := genC17(t)
+			ps = append(ps, Primer{Ext: ExtSpec{Kind: "nyctalerts", Alerts: c.Opts}, Msg: c.Msg})
+		default:
+			// the target itself with every NYCT trips option on (plain entities are untouched by it, the call's bookkeeping is not)
+			ps = append(ps, Primer{Ext: ExtSpec{Kind: "nycttrips", Trips: rgen.NyctTripsOpts{FilterStale: true}}, Msg: crossLinked(target)})
+		}
+	}
+	return ps
 }
 
 var c02Rec = vt.NewRecorder("C02", "TestC02",
@@ -27,6 +85,11 @@ var c02Rec = vt.NewRecorder("C02", "TestC02",
 func init() { registerReplay("C02", "TestC02", checkC02) }
 
 func parseRT(c CaseRT, ext func() *gtfs.ParseRealtimeOptions) (*gtfs.Realtime, error) {
+	for _, p := range c.Primers {
+		if p.Msg != nil {
+			gtfs.ParseRealtime(p.Msg.Marshal(), p.Ext.options(c.Zone))
+		}
+	}
 	opts := &gtfs.ParseRealtimeOptions{Timezone: rgen.Loc(c.Zone)}
 	if ext != nil {
 		opts = ext()
@@ -148,8 +211,11 @@ func propC02(t *rapid.T) {
 		o.MaxTrips, o.MaxVehicles, o.MaxAlerts, o.MaxSTU, o.MaxSelectors = 10, 8, 5, 12, 8
 	}
 	m, info := rgen.GenMsg(t, o)
-	c := CaseRT{Zone: zone, Msg: m}
+	c := CaseRT{Zone: zone, Msg: m, Primers: genPrimers(t, zone, m)}
 	classes, nt := rtClasses(c, info)
+	if len(c.Primers) > 0 {
+		classes = append(classes, "after-earlier-calls")
+	}
 	c02Rec.Eval(classes...)
 	if nt {
 		c02Rec.NontrivialCase(vt.Fingerprint(c), func() any { return c })
